@@ -55,6 +55,15 @@ pub fn define(
                     .expect_usize(report, expr.span())?,
             };
             
+            if addr_unit == 0
+            {
+                report.error_span(
+                    "invalid value for `bits`",
+                    node.addr_unit.as_ref().unwrap().span());
+
+                return Err(());
+            }
+            
             let label_align = match &node.label_align
             {
                 None => None,
